@@ -182,7 +182,7 @@ async def send_udp(
         loop = asyncio.get_event_loop()
 
     while retries > 0:
-        _, protocol = await loop.create_datagram_endpoint(
+        transport, protocol = await loop.create_datagram_endpoint(
             lambda: SNMPClientProtocol(packet),
             remote_addr=(str(endpoint.ip), endpoint.port),
         )
@@ -194,6 +194,10 @@ async def send_udp(
                 raise
             retries -= 1
             LOG.debug("Resending UDP packet. %d retries left", retries)
+        finally:
+            # Whatever happened (response, timeout, OS/ICMP error or
+            # cancellation), never leave the socket behind.
+            transport.close()
 
     return response
 
